@@ -102,6 +102,12 @@ fn join_all(case: &Case, handles: Vec<(usize, H<()>)>, cos: &[Option<may::corout
     cancelled
 }
 
+/// a poisoned mutex is still a mutex: take the guard out of the error (cfg[1] == 1: a
+/// poisoner panics while holding the mutex of the ticket protocol)
+fn ok<T>(r: std::sync::LockResult<T>) -> T {
+    r.unwrap_or_else(|e| e.into_inner())
+}
+
 fn run_ticket(case: &Case) -> Outcome {
     let mut out = Outcome::new();
     let pair = Arc::new((Mutex::new(0usize), Condvar::new()));
@@ -127,14 +133,21 @@ fn run_ticket(case: &Case) -> Outcome {
                 match op.0 {
                     WAIT | WAIT_TO | WAIT_WHILE => {
                         let c = log.call(ai, i, op.0);
-                        let mut g = m.lock().unwrap();
+                        let mut g = ok(m.lock());
                         let mut held = Held(&occ, false, &bad);
                         held.acquire();
                         let mut res = SERVED;
                         if op.0 == WAIT_WHILE {
-                            held.release();
-                            g = cv.wait_while(g, |a| *a == 0).unwrap();
-                            held.acquire();
+                            // (on a poisoned mutex wait_while comes back with the error at
+                            // once, condition true or not - as std's does: wait again)
+                            loop {
+                                held.release();
+                                g = ok(cv.wait_while(g, |a| *a == 0));
+                                held.acquire();
+                                if *g > 0 || !pair.0.is_poisoned() {
+                                    break;
+                                }
+                            }
                         } else {
                             loop {
                                 if *g > 0 {
@@ -142,10 +155,10 @@ fn run_ticket(case: &Case) -> Outcome {
                                 }
                                 held.release();
                                 if op.0 == WAIT {
-                                    g = cv.wait(g).unwrap();
+                                    g = ok(cv.wait(g));
                                     held.acquire();
                                 } else {
-                                    let (g2, r) = cv.wait_timeout(g, Duration::from_nanos(op.1 as u64)).unwrap();
+                                    let (g2, r) = ok(cv.wait_timeout(g, Duration::from_nanos(op.1 as u64)));
                                     g = g2;
                                     held.acquire();
                                     if r.timed_out() {
@@ -171,11 +184,11 @@ fn run_ticket(case: &Case) -> Outcome {
                         // a waiter that leaves after its time-out without ever taking a ticket; if
                         // it was woken by a notification it does not need, it passes it on
                         let c = log.call(ai, i, op.0);
-                        let g = m.lock().unwrap();
+                        let g = ok(m.lock());
                         let mut held = Held(&occ, false, &bad);
                         held.acquire();
                         held.release();
-                        let (g, r) = cv.wait_timeout(g, Duration::from_nanos(op.1 as u64)).unwrap();
+                        let (g, r) = ok(cv.wait_timeout(g, Duration::from_nanos(op.1 as u64)));
                         held.acquire();
                         let timed_out = r.timed_out();
                         drop(held);
@@ -189,7 +202,7 @@ fn run_ticket(case: &Case) -> Outcome {
                         let c = log.call(ai, i, op.0);
                         if op.2 == 0 {
                             {
-                                let mut g = m.lock().unwrap();
+                                let mut g = ok(m.lock());
                                 let mut held = Held(&occ, false, &bad);
                                 held.acquire();
                                 *g += if op.0 == GRANT_ONE { 1 } else { op.1 as usize };
@@ -203,7 +216,7 @@ fn run_ticket(case: &Case) -> Outcome {
                         } else {
                             // notify with the mutex held and keep it for a while: the woken
                             // waiters block in the re-lock inside Condvar::wait
-                            let mut g = m.lock().unwrap();
+                            let mut g = ok(m.lock());
                             let mut held = Held(&occ, false, &bad);
                             held.acquire();
                             *g += if op.0 == GRANT_ONE { 1 } else { op.1 as usize };
@@ -228,7 +241,30 @@ fn run_ticket(case: &Case) -> Outcome {
         cos.push(h.coroutine().cloned());
         handles.push((ai, h));
     }
+    // cfg[1] == 1: a poisoner locks the mutex cfg[2] ns after the start and panics with the
+    // guard alive, while the waiters sleep on the condvar
+    let poison = case.cfg(1) == 1;
+    let poisoner = if poison {
+        let (pair, occ, bad) = (pair.clone(), occ.clone(), bad.clone());
+        let delay = case.cfg(2).max(0) as u64;
+        Some(spawn(if case.cfg(3) == 1 { CO } else { TH }, "poisoner", move || {
+            sleep_ns(delay);
+            let g = ok(pair.0.lock());
+            let mut held = Held(&occ, false, &bad);
+            held.acquire();
+            let _ = &g;
+            panic!("mv-expected-panic-poisoner");
+        }))
+    } else {
+        None
+    };
     let cancelled = join_all(case, handles, &cos, &mut out);
+    if let Some(p) = poisoner {
+        match p.join() {
+            End::Panic(m) if m == "mv-expected-panic-poisoner" => {}
+            e => out.fail("poisoner-ended-abnormally", e.kind()),
+        }
+    }
     let b = bad.load(Ordering::SeqCst);
     if b >= 1000 {
         out.fail("wait_while-returned-with-condition-true", String::new());
@@ -238,6 +274,7 @@ fn run_ticket(case: &Case) -> Outcome {
     match pair.0.try_lock() {
         Ok(_) => {}
         Err(std::sync::TryLockError::WouldBlock) => out.fail("mutex-not-free-at-the-end", format!("cancelled {cancelled}")),
+        Err(std::sync::TryLockError::Poisoned(_)) if poison => {}
         Err(std::sync::TryLockError::Poisoned(_)) => out.fail("mutex-poisoned", format!("cancelled {cancelled}")),
     }
     let obs = log.take();
@@ -254,6 +291,7 @@ fn run_ticket(case: &Case) -> Outcome {
     out.flag_if(obs.iter().any(|o| o.op == WAIT_QUIT), "quitter");
     let pre = sched::preempts() > 0;
     out.flag("ticket");
+    out.flag_if(poison, "mutex_poisoned_while_waiters_sleep");
     out.flag_if(overlap, "notify_overlaps_wait");
     out.flag_if(timed_race, "notify_overlaps_wait_that_timed_out");
     out.flag_if(cancelled > 0, "cancel_delivered");
@@ -441,7 +479,9 @@ pub fn strategy(g: &GenCfg) -> BoxedStrategy<Case> {
             if let Some(c) = canc {
                 actors.push(c);
             }
-            Case { fam: "condvar".into(), workers, pool, feat, cfg: vec![0], actors, sched, weak: 0 }
+            // one case in five: the mutex gets poisoned while the waiters sleep
+            let poison = (holds[0] % 5 == 1) as i64;
+            Case { fam: "condvar".into(), workers, pool, feat, cfg: vec![0, poison, (delays[1] % 2_000_000) as i64, (holds[1] % 2) as i64], actors, sched, weak: 0 }
         });
     // barrier
     let g4 = g2.clone();
